@@ -288,6 +288,12 @@ def gen_coords(toppath,
     LOGGER.info("writing output",  type="step")
     command = ' '.join(sys.argv)
     system = topology.convert_to_vermouth_system()
-    vermouth.gmx.gro.write_gro(system, outpath, precision=7,
-                               title=command, box=topology.box)
+    try:
+        vermouth.gmx.gro.write_gro(system, outpath, precision=7,
+                                   title=command, box=topology.box)
+    except Exception:
+        # discard the partially written temporary file, otherwise it
+        # would be delivered by the next successful write in this process
+        DeferredFileWriter().close()
+        raise
     DeferredFileWriter().write()
